@@ -67,16 +67,22 @@ def gen_argv(p):
     return a
 
 
-def gen_cli(world, params, cfg=None, entropy=0):
-    """Fresh process running `python roberta_generator.py ...` in the scratch cwd."""
-    world.restart(entropy)
+def gen_cli(world, params, cfg=None, entropy=0, same_process=False):
+    """`python roberta_generator.py ...` in the scratch cwd: a fresh process that
+    ends afterwards - or (same_process) main() called from a long-lived driver."""
     cfg = dict(cfg or {})
+    if not same_process:
+        world.restart(entropy)
+        cfg["process_ends"] = True
     cfg["argv"] = gen_argv(params)
     return world.run_op(lambda: proc.mod("roberta_generator").main(), cfg)
 
 
-def gen_manual(world, b, cfg=None, entropy=0):
-    world.restart(entropy)
+def gen_manual(world, b, cfg=None, entropy=0, same_process=False):
+    cfg = dict(cfg or {})
+    if not same_process:
+        world.restart(entropy)
+        cfg["process_ends"] = True
     def thunk():
         m = proc.mod("stochastic_game_from_roborta_board")
         return m.create_sg_from_board(dec(b["moves"]), dec(b["rewards"]), dec(b["loose"]),
@@ -98,6 +104,7 @@ def solver_cli(world, path, save, log=None, cfg=None, entropy=0, capture=None):
         argv += ["-l", log]
     cfg = dict(cfg or {})
     cfg["argv"] = argv
+    cfg["process_ends"] = True
     cfg.pop("log", None)
 
     def thunk():
@@ -116,6 +123,27 @@ def solver_cli(world, path, save, log=None, cfg=None, entropy=0, capture=None):
                 return res
             cr.run_games = wrapped
         return cr.main()
+    return world.run_op(thunk, cfg)
+
+
+def solver_lib(world, path, save, cfg=None, capture=None):
+    """The same three steps main() performs, called from a long-lived session
+    (notebook / driver script): no restart, module state survives between calls."""
+    def thunk():
+        import copy
+        cr = proc.mod("conditionalrewards")
+        games = cr.read_dict_from_file(path)
+        if capture is not None:
+            try:
+                capture["arg"] = enc(copy.deepcopy(games))
+            except Exception as e:  # noqa
+                capture["arg_error"] = repr(e)
+        res = cr.run_games(games)
+        if capture is not None:
+            capture["ret_obj"] = res
+        if save:
+            cr.save_results_to_file(res, path)
+        return res
     return world.run_op(thunk, cfg)
 
 
